@@ -1,6 +1,6 @@
 """C17 - knowledge graphs are isolated and drops are final."""
 import re
-from ..core import CheckError, op_local, op_place
+from ..core import CheckError, op_local, op_place, syn_walk
 from . import common, dur
 
 SE = "storage_engine::StorageEngine"
@@ -148,4 +148,35 @@ def run(F, ctx):
         for c in bad:
             ctx.violation("%s:R-C17-c:foreign-key:%s" % (n, (c.static or "").split("::")[-1]), "%s accesses a knowledge graph / shard with a key that does not derive from its own `%s` parameter: an operation on one graph can touch another" % (n.split("::")[-1], f.name_of(kg_l)), c.where())
     ctx.extra["kg_keyed_methods"] = n_fns
+    ctx.end_rule()
+
+    # ---- d: one metadata file per shard
+    ctx.rule("R-C17-d", "the metadata file of a shard is never the file of another shard: where the name mapping is not injective, the path is resolved against the shard name recorded in the existing file", floor=2)
+    FPn = "storage::persist::FilePersist"
+    # is the name mapping injective?  (a character class mapped onto a character that is itself passed through)
+    san = F.syn_fn("sanitize_name", file="src/storage/persist/mod.rs")
+    lits = [n_["v"] for n_ in syn_walk(san["body"]) if n_.get("e") == "lit" and n_.get("t") in ("char", "str")]
+    collapsing = len([l for l in lits if len(l) == 1]) >= 2 and any(m_.get("m") == "replace" for m_ in syn_walk(san["body"]) if m_.get("e") == "mcall")
+    users = []
+    for nm in (FPn + "::save_shard_meta", "<" + FPn + " as storage::persist::PersistBackend>::delete_shard"):
+        if nm not in F.bodies:
+            cands = [x for x in F.bodies if x.endswith("::delete_shard") and "FilePersist" in x and "{closure" not in x]
+            nm = cands[0] if cands else nm
+        users.append(F.fn(nm))
+    for u in users:
+        # the path that is renamed onto / removed
+        sinks = [c for c in u.normal_calls() if re.search(r"^std::fs::(rename|remove_file)", c.static or "")]
+        direct = [c for c in u.normal_calls() if (c.resolved or "").endswith("persist::sanitize_name")]
+        resolvers = [c for c in u.normal_calls() if (c.resolved or "") in F.bodies and (c.resolved or "").startswith(FPn + "::") and "PathBuf" in u.ty(c.dst["l"])]
+        checked = False
+        for c in resolvers:
+            g = F.fn(c.resolved)
+            reads_name = any(a2.endswith("ShardMeta") and fld == "name" for n2 in F.with_closures(c.resolved) for (b2, kind, a2, fld, line, pl2) in F.fn(n2).field_accesses())
+            cmp_name = any(re.search(r"<(std::string::String|str) as std::cmp::PartialEq<.*>>::(eq|ne)$", x.static_args or "") for n2 in F.with_closures(c.resolved) for x in F.fn(n2).normal_calls())
+            if reads_name and cmp_name:
+                checked = True
+        ok = (not collapsing) or (checked and not direct)
+        ctx.site("%s: metadata path resolved against the recorded shard name" % u.name.split("::")[-1], u.where(), ok=ok, mapping_collapses_characters=collapsing, uses_sanitize_name_directly=bool(direct), resolvers=len(resolvers))
+        if not ok:
+            ctx.violation("%s:R-C17-d:metadata-file-shared-by-two-shards" % u.name, "%s derives the metadata file name from sanitize_name alone, which maps ':' and '/' to '_' and leaves '_' as it is: shards `a_b:c` and `a:b_c` (graph a_b / relation c, graph a / relation b_c) share `a_b_c.json`; the later save overwrites the earlier shard's metadata and that graph's relation is empty after a restart" % u.name.split("::")[-1], u.where())
     ctx.end_rule()
